@@ -186,6 +186,27 @@ theorem levelOK_is_the_code (p : Policy) (authenticated encrypted : Bool) :
       CedarGen.Decisions.commandLevelSatisfied p.auth p.enc p.integ authenticated encrypted :=
   Cedar.Tie.levelOK_eq_gen p authenticated encrypted
 
+/-- **satisfies_is_the_code** (tie T): the gate every dispatch theorem above goes through,
+    `Server.satisfies`, IS the code of `server.sessionSatisfies` for a session that exists: it passes
+    exactly when `CedarGen.Decisions.sessionSatisfies` — translated statement by statement from the Go
+    source on every run — returns nil, for every verdict of the level test and, when an Authorizer is
+    configured, of `authorized` (whose verdict the code does not consult otherwise).  Reordering the
+    tests, dropping one, or making the authorization test conditional on something else changes the
+    generated definition and breaks this proof. -/
+theorem satisfies_is_the_code (s : Server) (cmd : Nat) (sess : Sess) (authorizedNow : Bool)
+    (hA : ∀ a, s.authorizer = some a → authorizedNow = s.authorizedFor cmd sess.user) :
+    s.satisfies cmd sess =
+      ((CedarGen.Decisions.sessionSatisfies false
+          (levelOK (s.policyFor cmd) sess.authenticated sess.encrypted)
+          s.authorizer.isSome authorizedNow).ret == 0) :=
+  Cedar.Tie.satisfies_eq_gen s cmd sess authorizedNow hA
+
+/-- **no_session_no_command** (tie T): without a negotiated session the translated code refuses
+    (return 1 = "no negotiated session") whatever the other verdicts are. -/
+theorem no_session_no_command (l h a : Bool) :
+    (CedarGen.Decisions.sessionSatisfies true l h a).ret = 1 :=
+  Cedar.Tie.nil_session_refused_gen l h a
+
 example : CedarGen.Decisions.commandLevelSatisfied "REQUIRED" "OPTIONAL" "REQUIRED" true false = false := by decide
 example : CedarGen.Decisions.commandLevelSatisfied "" "PREFERRED" "" false false = true := by decide
 
@@ -199,6 +220,10 @@ example : srv.serveAuth ⟨false, true, "bob"⟩ (fun _ => true) 7 [8, 7] = [.ra
 example : srv.serveAuth ⟨true, false, "alice"⟩ (fun _ => true) 7 [8] = [.ran 7, .closed] := by decide
 example : srv.serveAuth ⟨true, true, "alice"⟩ (fun _ => true) 9 [] = [.closed] := by decide
 example : srv.serveRaw 7 = [.closed] ∧ srv.serveRaw 9 = [.ran 9, .closed] := by decide
+example : srv.satisfies 8 ⟨true, true, "bob"⟩ = false ∧
+    (CedarGen.Decisions.sessionSatisfies false true true false).ret = 3 ∧
+    (CedarGen.Decisions.sessionSatisfies false false true true).ret = 2 ∧
+    (CedarGen.Decisions.sessionSatisfies false true false false).ret = 0 := by decide
 
 /-! ### dispatch_sound over a session that really came out of a handshake
 
